@@ -28,17 +28,20 @@ func init() {
 		Instances: func(tier string) []*Instance {
 			return []*Instance{
 				{Pkg: "storage/cluster", Func: "VH_C19_merge"},
+				{Pkg: "storage/cluster", Func: "VH_C19_batch", Unwind: 16},
+				{Pkg: "storage/cluster", Func: "VH_C19_concurrent", Unwind: 16, EngineOnly: true},
 				{Pkg: "storage/cluster", Func: "VH_C19_vacuity", Expect: "violated"},
 			}
 		},
-		Covers: map[string][]string{"VH_C19_merge": {"end", "stale-update", "newer-leader", "newer-membership"}},
+		Covers: map[string][]string{"VH_C19_merge": {"end", "stale-update", "newer-leader", "newer-membership"}, "VH_C19_batch": {"end"}, "VH_C19_concurrent": {"end"}},
 		Bounds: map[string]string{
-			"quick":    "mergeShardInfo: one inductive step from an arbitrary stored view with two arbitrary updates; all integers full 64-bit; no loop",
-			"thorough": "same as quick plus shardView.update over lists of <=3 updates on <=2 shard ids",
+			"quick":    "mergeShardInfo: one inductive step from an arbitrary stored view with two arbitrary updates; all integers full 64-bit; no loop; view layer: shardView.update / shardInfo with an absent or arbitrary stored view, two arbitrary records of one shard and a record of another shard in ONE call == the records one by one; two concurrent update calls (one record each) under every interleaving of their lock operations (engine only): nothing lost",
+			"thorough": "same as quick",
 		},
-		Outside: "membership maps are compared by identity tag (one symbolic byte); gossip transport and memberlist delegate code are not executed",
+		Outside: "membership maps are compared by identity tag (one symbolic byte); gossip transport and memberlist delegate code are not executed; more than two concurrent callers; interleavings finer than lock operations (data races: the race detector's domain)",
 		Assumptions: []string{
 			"Raft facts about announcements of one shard: one leader per term; one membership per configuration-change index",
+			"lock model: a mutex is a one-slot channel, read locks are taken exclusively; every lock operation is a scheduling point",
 			"stored-view invariant: LeaderID==0 implies Term==0 (views start as {ShardID} and Term is only written with a leader); shown preserved by the step",
 		},
 	}
@@ -84,9 +87,12 @@ func init() {
 				r = append(r, &Instance{Pkg: fsm, Func: "VH_C12_options", Args: []int64{n}})
 			}
 			r = append(r, &Instance{Pkg: fsm, Func: "VH_C12_vacuity", Args: []int64{3}, Expect: "violated"})
+			for _, a := range [][2]int64{{1, 1}, {1, 2}, {2, 1}, {1, 1019}, {1, 1020}, {1, 1024}, {1024, 1024}} {
+				r = append(r, &Instance{Pkg: fsm, Func: "VH_C12_deleterange", Args: []int64{a[0], a[1]}, Unwind: 32})
+			}
 			return r
 		},
-		Covers: map[string][]string{"VH_C12_roundtrip": {"end"}, "VH_C12_order": {"end"}, "VH_C12_bounds": {"end"}, "VH_C12_increment": {"end"}, "VH_C12_options": {"end"}},
+		Covers: map[string][]string{"VH_C12_roundtrip": {"end"}, "VH_C12_order": {"end"}, "VH_C12_bounds": {"end"}, "VH_C12_increment": {"end"}, "VH_C12_options": {"end"}, "VH_C12_deleterange": {"end", "deleted"}},
 		Bounds: map[string]string{
 			"quick":    "key lengths: every length 1..8 (round trip, all pairs up to 4x4 plus diagonal and 8), plus 1019/1020/1023/1024-byte keys (API limit 1024) with all bytes symbolic; bound triples with lengths 0..3 and four maximum-length triples; no symbolic loop",
 			"thorough": "as quick with all 8x8 length pairs and bound triples 0..4",
@@ -231,12 +237,13 @@ func init() {
 				}
 			}
 			r = append(r, &Instance{Pkg: tb, Func: "VH_C10_readpath", Unwind: 32})
+			r = append(r, &Instance{Pkg: "storage/table/fsm", Func: "VH_C10_samedelivery", Unwind: 32})
 			r = append(r, &Instance{Pkg: tb, Func: "VH_C10_vacuity", Expect: "violated"})
 			return r
 		},
-		Covers: map[string][]string{"VH_C10_revision": {"end"}, "VH_C10_readpath": {"end", "linearizable"}},
+		Covers: map[string][]string{"VH_C10_revision": {"end"}, "VH_C10_readpath": {"end", "linearizable"}, "VH_C10_samedelivery": {"end"}},
 		Bounds: map[string]string{
-			"quick":    "one mutation of each kind (put, delete, delete range, transaction with empty / writing / read-only taken branch) at an arbitrary log index (1..64; any 64-bit index for put and empty-branch transaction), followed by a second mutation; 1-byte keys and values",
+			"quick":    "one mutation of each kind (put, delete, delete range, transaction with empty / writing / read-only taken branch) at an arbitrary log index (1..64; any 64-bit index for put and empty-branch transaction), followed by a second mutation; 1-byte keys and values; one delivery (one apply call) of a put at revision N and a read-write transaction at N+1 whose branch writes a key and reads both keys, from an arbitrary state of 0..1 pairs: the reads reflect every lower-revision write and the transaction's own earlier ops",
 			"thorough": "any 64-bit index for every kind",
 		},
 		Outside:     "that dragonboat's SyncRead is linearizable and that proposals are totally ordered (model M2 assumes it); concurrent clients beyond the total order",
@@ -302,17 +309,18 @@ func init() {
 		Instances: func(tier string) []*Instance {
 			tb := "storage/table"
 			return []*Instance{
-				{Pkg: tb, Func: "VH_C15_lease", Unwind: 32},
+				{Pkg: tb, Func: "VH_C15_lease", Args: []int64{1, 1}, Unwind: 32},
+				{Pkg: tb, Func: "VH_C15_lease", Args: []int64{2, 0}, Unwind: 32},
 				{Pkg: tb, Func: "VH_C15_return", Unwind: 32},
 				{Pkg: tb, Func: "VH_C15_vacuity", Expect: "violated"},
 			}
 		},
 		Covers: map[string][]string{"VH_C15_lease": {"end", "granted", "held", "returned"}, "VH_C15_return": {"end", "foreign"}},
 		Bounds: map[string]string{
-			"quick":    "one call of node 1 (lease/renew or return) from an arbitrary pre-existing record (absent / owner 1,2,3 / arbitrary expiry instant and version), with one arbitrary call (lease, renew, return, none) of node 2 between node 1's store read and store write, then one arbitrary call of node 3 and one more of node 2; lease durations 10 s and -1 s; all clock readings symbolic, monotone, non-decreasing",
+			"quick":    "one call of node 1 (lease/renew or return) from an arbitrary pre-existing record (absent / owner 1,2,3 / arbitrary expiry instant and version), with one, and with two, arbitrary calls (lease, renew, return, none) of node 2 between node 1's store read and store write (two calls: the record can be deleted and re-created inside the window; that instance ends after node 1's call), then one arbitrary call of node 3 and one more of node 2; lease durations 10 s and -1 s; all clock readings symbolic, monotone, non-decreasing",
 			"thorough": "same (the step is inductive over the record; more calls add nothing new)",
 		},
-		Outside: "clock skew between nodes (one global monotone clock is assumed); the worker's cached 'leased' flag lagging a renewal behind; more than one interfering call inside a single read-write window",
+		Outside: "clock skew between nodes (one global monotone clock is assumed); the worker's cached 'leased' flag lagging a renewal behind; more than two interfering calls inside a single read-write window",
 		Assumptions: []string{
 			"M2 with the real LFSM: store writes are compare-and-set on the version (C13)",
 			"M4: json round trip of table.Lease preserves ID and the instant",
